@@ -146,6 +146,14 @@ def run(ck):
                             ok, found = True, "guard on the element appended in the same step"
                 sck.ob("Z2", fq, "a reported step has a positive finite feed temperature or the call raises", where, ok,
                        "every returning path must have tested 0 < T[k] < inf (failing arm raises)", found=found)
+            else:
+                # not the step-by-step series: the only other admissible report is the (assumed admissible) initial temperature repeated
+                init_T = pm.cond_field("initial_feed_temperature")
+                elem = T.elem if isinstance(T, ListV) and T.kind in ("rep", "fam") else None
+                ok = isinstance(elem, Num) and elem.r == init_T
+                sck.ob("Z2", fq, "a reported feed temperature that is not the tested step series is the initial feed temperature repeated", where, ok,
+                       "the reported temperatures are built from values no decision on the path has tested (0 < T < inf)",
+                       found="%s" % (T.kind if isinstance(T, ListV) else type(T).__name__))
         # each guard's failing arm is a raise: the exits collected while evaluating
         kinds = {}
         for label, meta, o in exits:
